@@ -7,6 +7,26 @@ HOOK_COMMITS = ["3ae8aca", "0edfce9"]
 
 # id -> (category, technique, text, note, design_ref)
 CHECKS = {
+ "C02": ("model_checking",
+         "bounded exhaustive enumeration (E1) of single operations + explicit-state search (stateright BFS and DFS) over operation programs on real ciphertext objects, oracle = exact phase under a fixed clear secret",
+         "19 noise-free GLWE operations (add/sub/negate/copy, rotate and mul_xp_minus_one for every k in [-4N,4N], five shift forms for every shift 0..(size+2)*base2k, normalise incl. all radix pairs) and the GGSW rotations are run for all size triples, all admitted rank combinations incl. rank-0 operands, N in {8,16}, base2k in {1,2,3,17}, two garbage fills, and judged on three levels: each result column as an exact rational, the phase under a clear secret (no key needed), limb-exact equality with the ring model where nothing is truncated. All programs of depth 3 (quick) / 4 (thorough) over these operations on a 3-register file are explored with stateright (state = shapes + tolerance class + depth; every transition is a real call checked against the reference phase; BFS and DFS counts compared). Two defects repaired, one HAL finding re-observed.",
+         "Trusted: phase oracle, ring model, stateright's exhaustive search. State merging is sound because none of these operations branches on payload; payload is checked on every transition.",
+         "3/C02"),
+ "C03": ("exploration",
+         "bounded exhaustive enumeration (E1) of gadget shapes x Galois elements x slot subsets x messages, oracle = exact phase under the target secret against the exact image of the input phase and a derived worst-case noise bound",
+         "GLWE/GGLWE/GGSW/LWE key-switching, the eight automorphism variants for every odd g mod 2N (N=8,16), automorphism of automorphism keys, trace for every start level, packing for every subset of slots at N=8 and every gap, the packer on a re-used instance, LWE<->GLWE conversion for every index and sample extraction are run for rank_in x rank_out in 1..3, dsize 1..4, every residue of a_size mod dsize, dnum below/equal/above, key precision below/equal/above, nine radix triples, on four backends from garbage-filled scratch. Keys come from the library with harness-known secrets and are themselves verified cell by cell; the result's exact phase minus the exact image must be below a worst-case bound (all error samples are truncated), and the rounded plaintext is compared exactly; an oracle-free family requires every (dsize, dnum) to give the same plaintext. Three defects repaired.",
+         "Trusted: phase oracle, ring model, the bound calculus (kit.rs). A noise inflation that stays under the worst-case bound is invisible (statistical claim, outside this family).",
+         "3/C03"),
+ "C04": ("exploration",
+         "bounded exhaustive enumeration (E1) of external-product shapes x GGSW plaintexts x selector bits, oracle = exact negacyclic product of the phases and per-cell GGSW decryption",
+         "GLWE/GGLWE/GGSW x GGSW external products (in-place and out-of-place), cmux / cmux_assign / cmux_assign_neg / cswap, GGLWE->GGSW row expansion, GGSW key-switch and automorphism are run for ranks 1..3, dsize 1..4, dnum 1..needed+1, GGSW precision below/above, eight radix triples, result shorter/equal/longer, m2 in {0, +-1, X^k for every k in [0,2N), dense ternary (all 3^8 at N=8 in the thorough tier)}, from zero-filled and from garbage-filled scratch (a difference is classified separately). The result must decrypt to the exact product m1*m2 within a derived bound, CMux must select exactly one input, and every GGSW cell must encrypt m2*gadget(row)*(-s_col or 1). Two defects repaired.",
+         "Trusted: phase oracle, ring model, bound calculus. CMux forms are driven with equal radices only (the product routine asserts it).",
+         "3/C04"),
+ "C05": ("exploration",
+         "bounded exhaustive enumeration (E1) of operand sizes x effective precisions x every convolution offset x radices, oracle = exact product of operand phases under the secret tensor computed by the harness",
+         "glwe_tensor_apply / add_assign / square, relinearisation (dsize 1..3, every residue of tensor size mod dsize, dnum below/equal/above, tensor radix equal/different from key radix), mul_plain(+assign) and mul_const(+assign) are run for sizes 1..4, unequal effective precisions over every residue, every cnv_offset in bits, result sizes below/equal/above, ranks 1..2 on four backends; the tensor is decrypted with s_i*s_j computed by schoolbook product, the relinearised result with s, against the exact product placed at the position implied by the precisions and the offset; add_assign must add exactly what apply produces and square must equal apply(a,a) bit for bit. Three defects repaired, one HAL finding re-observed.",
+         "Trusted: phase oracle, schoolbook product. The truncation loss of discarded un-normalised convolution limbs is granted as predicted noise (assumption recorded in the evidence).",
+         "3/C05"),
  "C01": ("exploration",
          "bounded exhaustive enumeration (E1) of parameter sets x secret distributions x messages x seeds, oracle = exact phase recomputed from ciphertext limbs and a clear copy of the secret",
          "GLWE secret-key, public-key (with key generation), seed-compressed (+decompress) and LWE secret-key encryption are run for N in {8,16}, ranks 0..3, radices 1..6, 12, 17 and the backend maximum, every precision k up to 4 limbs incl. every residue k mod base2k, six secret distributions, an 8-class message alphabet with extreme digits and 8 seed triples on four backends; the harness recomputes the phase exactly (big integers) and requires every coefficient of phase - message to be within the worst case implied by the truncation bound; the library's decryption into up to nine (radix, size) plaintexts must equal the rounded phase. Because the Gaussian is truncated this is a hard invariant, not a statistic.",
